@@ -65,6 +65,10 @@ CLAIMED["C17"] = dict(
    text="(partial) The real InstanceDecoder.decode runs on concrete small templates with every x entry abstracted to its sign plus an arbitrary integer truncation of each product int(k*x_i) (an over-approximation of all floats in [-1,1], including -1, 0, 1 and their neighbours): on every path the recorded instance keeps the suffixed name, the bin, the item count, item sizes within the bin, equal items merged, and (min_bins-1)*A < total area <= min_bins*A; an IndexError/ZeroDivisionError is a violation. Models are turned into float vectors that reproduce every recorded truncation and replayed through InstanceSpace + InstanceDecoder (lower_bound_bins == min_bins, decoding twice equal). The Errors objective is cross-checked concretely.",
    note="Outside: hardness objectives, the seeded shuffle, larger templates; lower_bound_bins == min_bins symbolically (needs C03). Spurious abstract models are discarded (inconclusive, never a violation). One genuine defect found and repaired.",
    design="4/C17")
+CLAIMED["C18"] = dict(
+   text="(partial) Explicit formats: the real _matrix_from_edge_weights / __read_n_ints / __line_to_nums run on text whose numbers are symbolic (opaque atom tokens) and whose wrapping into lines is decided by forking at every token boundary: for FULL_MATRIX, UPPER_ROW, LOWER_DIAG_ROW, UPPER_DIAG_ROW and n <= 4 the k-th number lands in the cell TSPLIB95 prescribes (hence the formats agree on a common matrix). Round trip: a symbolic instance (real constructor) written by the real to_stream and read by the real _from_stream returns name, size, symmetry flag and matrix. Tour parser: arbitrary node sequences are accepted iff they are permutations of 1..max and then returned shifted by one.",
+   note="Outside: EUC_2D/CEIL_2D/ATT/GEO coordinate distances (float sqrt/cos/acos: not encodable here) and the fact that every shipped tour has the documented length (a statement about shipped data). Numbers travel as opaque atoms (digit-level formatting assumed).",
+   design="4/C18")
 NA = {
  "C12": "quantifies over complete optimisation runs (moptipy Execution/Process, RNG streams, log files, budgets): no bounded symbolic encoding within reach; its solver-decidable ingredients are claimed under C01, C02, C04-C06, C19",
 }
